@@ -68,6 +68,70 @@ def has_structured(j):
     return False
 
 
+# ---- malformed input: one mutation of the library's own JSON (a key deleted, or a value replaced by a value of another
+# JSON type / an unknown name).  Not in the palette, because the model does not cover them (PM/Json.lean, "from_json"):
+# strings that are themselves JSON text (the code hands strings to json.loads), negative integers (positions are
+# naturals in the model), floats with an integral value.
+PALETTE = [None, True, False, 0, 1, 7, "x", "", [], [1], {}, {"a": 1}, 1.5, "text", "paragraph", "nosuch", [[]], {"type": "em"}]
+
+
+def _paths(j, pre=()):
+    yield pre
+    if isinstance(j, dict):
+        for k, v in j.items():
+            yield from _paths(v, pre + (k,))
+    elif isinstance(j, list):
+        for i, v in enumerate(j):
+            yield from _paths(v, pre + (i,))
+
+
+def _get(j, p):
+    for k in p:
+        j = j[k]
+    return j
+
+
+def _with(j, p, v, delete=False):
+    j = copy.deepcopy(j)
+    if not p:
+        return v
+    c = j
+    for k in p[:-1]:
+        c = c[k]
+    if delete:
+        del c[p[-1]]
+    else:
+        c[p[-1]] = v
+    return j
+
+
+def malformed_variants(j, rng, n):
+    """(description, mutated JSON) — n single mutations of JSON data j"""
+    ps = list(_paths(j))
+    out = []
+    for _ in range(n):
+        p = rng.choice(ps)
+        where = "/".join("#" if isinstance(k, int) else k for k in p)
+        if p and not isinstance(p[-1], int) and rng.random() < 0.3:
+            out.append((f"del {where}", _with(j, p, None, delete=True)))
+            continue
+        v = rng.choice(PALETTE)
+        old = _get(j, p)
+        if type(v) is type(old) and v == old:
+            continue
+        out.append((f"set {where}:{type(v).__name__}", _with(j, p, copy.deepcopy(v))))
+    return out
+
+
+def str_of_nonscalar_text(j):
+    """a text node whose "text" is a list / dict / float: the code takes Python's str() of it; the model only says that it is not empty"""
+    if isinstance(j, dict):
+        return any((k == "text" and isinstance(v, (list, dict, float))) or str_of_nonscalar_text(v) for k, v in j.items())
+    if isinstance(j, list):
+        return any(str_of_nonscalar_text(x) for x in j)
+    return False
+
+
 def size0_nonempty(step):
     sl = getattr(step, "slice", None)
     return sl is not None and sl.size == 0 and sl.content.size > 0
@@ -85,6 +149,17 @@ def run(ctx):
             got = out.get("ok", out)
             if op == "toJson":
                 got = canon(got) if "ok" in out else out
+            if op == "malformed":
+                # exp = (class, value or None, value_exact); the outcome class is tied exactly, the value when it is modelled
+                cls = "ok" if "ok" in out else out.get("err", "?")
+                ctx.count(f"malformed:{replay['kind']}:{exp[0]}")
+                if cls != exp[0]:
+                    ctx.mismatch("malformed-from_json-class", replay, exp[0], cls)
+                elif cls == "ok" and exp[2] and out["ok"] != exp[1]:
+                    ctx.mismatch("malformed-from_json-value", replay, exp[1], out["ok"])
+                elif cls == "ok":
+                    ctx.count("malformed:decoded-value-compared" if exp[2] else "malformed:decoded-value-not-modelled")
+                continue
             if got != exp:
                 ctx.mismatch(op, replay, exp, got)
         del reqs[:], metas[:]
@@ -272,6 +347,28 @@ def run(ctx):
                 metas.append(("toJson", replay, canon(wire(j))))
                 reqs.append({"op": "fromJson", "s": sid, "k": "step", "v": wire(j)})
                 metas.append(("fromJson", replay, info.step(back)))
+            # malformed data (what an untrusted peer may send): one mutation of the library's own JSON; the decoders of the
+            # code and of the model must end in the same class — a value, a ValueError, or an internal error
+            mal = [("node", d.to_json(), Node.from_json, info.node), ("slice", sl.to_json(), Slice.from_json, info.slice)]
+            if m is not None:
+                mal.append(("mark", m.to_json(), Mark.from_json, info.mark))
+            for _ in range(3):
+                mal.append(("step", gen.gen_step(rng, info, d, docs).to_json(), Step.from_json, info.step))
+            for kind, j0, from_json, enc in mal:
+                if j0 is None:
+                    continue
+                for what, bad in malformed_variants(wire(j0), rng, ctx.budget(3, 8)):
+                    stb, vb = outcome(lambda: from_json(schema, wire(bad)))
+                    val, exact = None, False
+                    if stb == "ok":
+                        try:
+                            val, exact = enc(vb), not str_of_nonscalar_text(bad)
+                        except Exception:  # noqa: BLE001   (a decoded object the codec cannot express, e.g. a non-int position)
+                            val, exact = None, False
+                    ctx.case(["malformed", kind, info.name, bad], sample={"op": "from_json of malformed data", "kind": kind, "mutation": what})
+                    reqs.append({"op": "fromJson", "s": sid, "k": kind, "v": bad})
+                    metas.append(("malformed", {"schema": info.name, "kind": kind, "mutation": what, "json": bad, "real": stb if stb != "ok" else "ok",
+                                                "detail": None if stb == "ok" else str(vb)[:120]}, (stb, val, exact)))
     flush()
     return ctx.finish(
         rule="a case is a document / slice / fragment / mark / step (eight kinds) of a bundled-family or random schema, passed "
